@@ -55,6 +55,7 @@ type AssignTarget struct {
 	Alloc  Expr   // alloc(p): every cell of the allocation p points into (plus function-local maps), e.g. the target of Unmarshal
 	Spare  Expr   // sparecap(s): the elements of s's backing array beyond len(s) (what append may write in place)
 	Nothing bool
+	Maps    bool // the contents of Go maps (all of them)
 }
 
 type LoopSpec struct {
@@ -513,6 +514,8 @@ func parseAssigns(src string) ([]AssignTarget, error) {
 			out = append(out, AssignTarget{Mem: true})
 		case p == "nothing":
 			out = append(out, AssignTarget{Nothing: true})
+		case p == "maps":
+			out = append(out, AssignTarget{Maps: true})
 		default:
 			e, err := parseExpr(p)
 			if err != nil {
